@@ -1,5 +1,24 @@
-OUTSIDE = "(draft)"
-ASSUMPTIONS = []
+OUTSIDE = ("ares_uri.c (the dns:// nameserver form: ares_uri_parse_buf is stubbed as 'not a URI'); ares_hosts_file.c beyond ares_dns_pton; "
+           "the nsswitch.conf / netsvc.conf / svc.conf line readers (they share ares_buf_split and config_lookup, which are covered through "
+           "the resolv.conf 'lookup' keyword); ares_sysconfig_process_buf's own line loop and real file I/O / getenv (LOCALDOMAIN and "
+           "RES_OPTIONS reach config_search / ares_sysconfig_set_options, which are covered, but ares_init_by_environment itself is not run); "
+           "texts longer than the stated byte counts; more than two options / servers / sortlist entries per text; allocation failure "
+           "inside these parsers (C14); the fqdn[256] buffer of ares_lookup_hostaliases (probe did not close); IPv6 conversion inside the "
+           "deeper nameserver/sortlist/resolv.conf jobs (contract stub there, real converter only in c15_pton_*, c15_nameserver_*_L4/L6)")
+ASSUMPTIONS = ["array_ref.c: fixed-capacity reference implementation of the ares_array contract replaces dsa/ares_array.c in every C15 job "
+               "(the real growth path makes every token allocation size symbolic: measured no verdict / out of memory); the real ares_array is "
+               "checked against the same contract in C19",
+               "pton_stub.c: in the *stubpton*, c15_sortlist_* (except realpton) and c15_resolvline_* jobs ares_inet_pton is a contract stub "
+               "(NUL-terminated input checked, result an uninterpreted function of family and text, only [0-9a-fA-FxX.:/] texts accepted); the "
+               "real converter is checked on arbitrary texts of 3..7 (quick) / 9 (thorough) bytes in c15_pton_*",
+               "libc_extra.c: strtoul and memchr are harness implementations (CBMC 6.11 ships no model); atoi/strtol/strlen/strcmp/strchr/"
+               "strcasecmp are CBMC's library models",
+               "ares_uri_parse_buf returns ARES_EBADSTR (URI nameserver form outside)",
+               "interface lookups (aif_nametoindex / aif_indextoname) return arbitrary values; index 0 is never a valid interface",
+               "c15_hostaliases: getenv and the C stream functions are in-memory stubs (no native replay for these jobs)",
+               "jobs using goto-instrument --restrict-function-pointer (server list destructor = ares_free, as set by ares_sconfig_append) are "
+               "not natively replayable",
+               "value bytes of an options token exclude blank/tab in the single-token jobs (a blank makes two tokens: junkafter/junkbefore jobs)"]
 
 LIB = ["src/lib/ares_library_init.c", "src/lib/util/ares_math.c", "src/lib/str/ares_buf.c", "src/lib/str/ares_str.c"]
 SUP = ["vp_rt.c", "valloc.c", "memloops.c", "libc_extra.c", "array_ref.c"]
@@ -22,7 +41,7 @@ def options_jobs(tier):
     # the two-token metamorphic jobs need 4 symbolic process_option() instances: measured > 240 s, thorough tier only
     pair_keys = () if tier == "quick" else ("timeout", "ndots", "rotate")
     tv, jk = (1, 2)
-    for key, field in OPTKEYS + [(None, 0)]:
+    for key, field in OPTKEYS + ([] if tier == "quick" else [(None, 0)]):   # arbitrary 3-byte key: 112-150 s, thorough only
         kd = ["-DKEYSYM", "-DFIELD=0"] if key is None else ["-DKEY=" + q(key), "-DFIELD=%d" % field]
         kn = "SYM3" if key is None else key
         kl = 3 if key is None else len(key)
@@ -73,9 +92,9 @@ def nameserver_jobs(tier):
     full = "0123456789abcdef.:%[] x"
     shapes = []
     # measured (sat): parse L4 22 s, L6 63 s, L8 144 s; fromstr costs about the same per entry
-    for l in ((4, 6) if tier == "quick" else (4, 6, 8, 9, 10)):
+    for l in ((4, 6) if tier == "quick" else (4, 6, 8)):
         shapes.append(("L%d" % l, "", full, l, 0, None))
-    for l in ((4,) if tier == "quick" else (4, 6, 7, 8)):
+    for l in ((4,) if tier == "quick" else (4, 6)):
         shapes.append(("L%d" % l, "", full.replace(" ", ""), l, 1, None))
     # deeper bounds with the converter replaced by its contract stub (pton_stub.c; real one: c15_pton_*)
     for l in ((8, 10) if tier == "quick" else (8, 10, 12)):
@@ -84,7 +103,6 @@ def nameserver_jobs(tier):
     shapes.append(("stubpton_two_L9", "", full.replace(" ", ""), 9, 1, 4))
     if tier != "quick":  # two entries: measured 152 s at L5
         shapes.append(("two_L5", "", full.replace(" ", ""), 5, 1, 2))
-        shapes.append(("two_L7", "", full.replace(" ", ""), 7, 1, 3))
     # shape-concrete probes of the fixed-size locals: portstr[6], ll_iface[IF_NAMESIZE=16], ipaddr[46]
     shapes.append(("port_v4", "1.2.3.4:", "0123456789 %x", 7, 0, None))
     shapes.append(("port_v6", "[::1]:", "0123456789 %x", 7, 0, None))
@@ -142,6 +160,7 @@ def sortlist_jobs(tier):
     if tier != "quick":
         shapes.append(("two_L7", "", None, 7, 3, False))
     # shape-concrete probes: maskstr[16] and the atoi() of a long digit string
+    shapes.append(("mask_short", "1.2.3.4/", "0123456789.", 3, None, False))
     shapes.append(("mask_num", "1.2.3.4/", "0123456789", 11, None, False))
     shapes.append(("mask_long", "::1/", "0123456789.", 16, None, False))
     for nm, prefix, cs, l, split, realpton in shapes:
@@ -192,27 +211,36 @@ RL_KEYS = [("domain", 1), ("search", 1), ("lookup", 2), ("hostresorder", 2), ("n
 def resolvline_jobs(tier):
     J = []
     rfp = {"instrument": [["--restrict-function-pointer", "ares_llist_node_destroy.function_pointer_call.1/ares_free"]]}
-    v0 = 4 if tier == "quick" else 6
+    v0 = 4   # both tiers (deeper values for these keywords were not measured on the shared machine)
     # MODE 0: frame property, one symbolic line from an initial / a populated sysconfig
-    for key, own in RL_KEYS:
-        kn = {"#": "comment"}.get(key, key)
-        kd = ["-DKW=" + q(key)]
+    for key, own, vprefix in [(k, o, "") for k, o in RL_KEYS] + [("lookup", 2, "bind ")] + ([] if tier == "quick" else [("search", 1, "a.b ")]):   # search_two: 229 s
+        kn = {"#": "comment"}.get(key, key) + ("_two" if vprefix else "")
+        kd = ["-DKW=" + q(key)] + (["-DVPREFIX=" + q(vprefix)] if vprefix else [])
         if key == "domain":
             kd.append("-DSINGLE_DOMAIN")
         v = v0
+        if tier == "quick" and key in ("options", "sortlist", "nameserver"):
+            # measured unloaded (value bytes 2/2/3): 85-113 s / 92-126 s / 100 s and 6-8 GB each; on the shared machine they were
+            # killed for memory.  Registered in the thorough tier only; their value parsers are the c15_options_* / c15_sortlist_* /
+            # c15_nameserver_* jobs of the quick tier.
+            continue
         if key == "options":
             kd.append("-DNOBLANK")
-            v = 2 if tier == "quick" else 4   # measured: 3 value bytes 130 s, 4 bytes 150-200 s
+            v = 3   # measured: 2 value bytes 85-113 s, 3 bytes 130 s, 4 bytes 150-200 s
         if key == "nameserver":
             kd.append("-DNOSEP")
-            v = 3 if tier == "quick" else 5   # measured: 4 value bytes 105 s
+            v = 4   # measured: 3 value bytes 100 s, 4 value bytes 105 s
         if key == "sortlist":
-            v = 2 if tier == "quick" else 4   # measured: 4 value bytes out of memory at 8 GB
+            v = 2   # measured: 2 value bytes 92-126 s, 4 value bytes out of memory at 8 GB
         for pre in (0, 1):
             if own == 0 and pre == 0:
                 continue
+            if vprefix and pre == 1:
+                continue
+            vsym = v
+            v = len(vprefix) + vsym   # value length
             n = len(key) + 1 + v
-            tok = 1 if key in ("options", "nameserver") else (v + 1) // 2   # tokens a v-byte value can hold
+            tok = 1 if key in ("options", "nameserver") else (vsym + 1) // 2 + (1 if vprefix else 0)   # tokens the value can hold
             if key == "sortlist":
                 # the only symbolic allocation size is the sortlist realloc (1 or 2 entries): case-split allocator
                 kd = [k for k in kd if not k.startswith("-DVP_SIZES")] + ["-DVP_SIZES=24,48,%d,32,64,8,4,3,44" % n]
@@ -222,22 +250,23 @@ def resolvline_jobs(tier):
             u.update({"ares_buf_split.2": v + 2, "raw_alloc.0": 10, "ares_buf_split.0": v + 1, "ares_buf_split.1": v + 1,
                       "ares_buf_split_isduplicate.0": tok + 1, "ares_buf_split_str_array.0": max(tok, 2) + 1,
                       "ares_free_array.1": max(tok, 2) + 1, "ares_array_destroy.0": max(tok, 2) + 1, "config_lookup.0": tok + 1,
-                      "config_search.0": tok + 1, "ares_sysconfig_set_options.0": tok + 1, "ares_parse_sortlist.0": tok + 1,
+                      "config_search.0": v + 2, "config_search.1": v + 2,   # (a fix adding a scan loop to config_search renumbers its loops) "ares_sysconfig_set_options.0": tok + 1, "ares_parse_sortlist.0": tok + 1,
                       "ares_sconfig_append_fromstr.0": tok + 1, "ares_array_insertdata_last.0": 9, "ares_array_insert_last.1": 9,
                       "pton_common.0": 18, "pton_common.1": 17, "pton_common.2": 17, "strtoul.0": v + 2, "strtoul.1": v + 2,
-                      "ares_llist_clear.0": tok + 2, "harness.0": 13, "harness.1": v + 1, "harness.2": 3,
+                      "ares_llist_clear.0": tok + 2, "harness.0": 13, "harness.1": 8, "harness.2": v + 2, "harness.3": 3,
                       "memcpy.0": max(n + 1, {"sortlist": 25, "nameserver": 21}.get(key, 0), 21 if pre else 0), "vp_realloc.0": 50, "ares_memeq_ci.0": v + 1, "strcasecmp.0": 9,
                       "ares_buf_fetch_str_dup.0": v + 1, "str_eq.0": 5, "domains_eq.0": 3, "sortlist_eq.0": 3, "servers_eq.0": 4,
-                      "harness.3": 5, "harness.4": 4, "harness.5": 4, "ares_free_array.0": 3})
+                      "harness.4": 5, "harness.5": 4, "harness.6": 4, "ares_free_array.0": 3})
             J.append(dict(name="c15_resolvline_%s_pre%d" % (kn, pre), harness="resolvline.c",
-                          defines=["-DMODE=0", "-DOWN=%d" % own, "-DV=%d" % v, "-DPRE=%d" % pre] + kd, real=RL_LIB,
+                          defines=["-DMODE=0", "-DOWN=%d" % own, "-DV=%d" % vsym, "-DPRE=%d" % pre] + kd, real=RL_LIB,
                           support=SUP + ["pton_stub.c"], unwind=n + 2, unwindset=us(u), leak=True, kf_group="c15_resolvline", **rfp,
                           # value[512] is symbolic anyway: keep it out of element-wise field sensitivity (a symbolic index into it
                           # would be a 512-way case split); option[32] and the other small buffers stay element-wise
-                          cbmc=["--max-field-sensitivity-array-size", "64"],
+                          cbmc=["--max-field-sensitivity-array-size", "64"], mem_gb=12,
                           bound="one real ares_sysconfig_parse_resolv_line on '%s' + blank + %d ARBITRARY bytes%s from %s sysconfig" %
-                                (key, v, " (no blank: one option token)" if key == "options" else "",
+                                (key + (" " + vprefix if vprefix else ""), vsym, " (no blank: one option token)" if key == "options" else "",
                                  ("a freshly initialised", "a populated (1 domain, lookups, 1 server, 1 sortlist entry, arbitrary scalars)")[pre])))
+            v = vsym
     v = v0
     # MODE 1: metamorphic, junk line next to one concrete valid line of every directive kind (two real runs)
     for key, own in RL_KEYS:
@@ -256,6 +285,30 @@ def resolvline_jobs(tier):
     return J
 
 
+def hostaliases_jobs(tier):
+    J = []
+    shapes = [("F%d" % l, "", l, "ab") for l in ((6,) if tier == "quick" else (6, 7))]
+    # fixed buffers: hostname[64] (token of 62..66 chars), fqdn[256] (second token of 253..257 chars)
+    shapes.append(("hostname64", "a" * 62, 4, "a" * 63))
+    # fqdn[256] probe (second token of 253..257 chars): no verdict - 240 s timeout at quick, out of memory (14 GB) after 427 s at
+    # thorough; not registered.  shapes.append(("fqdn256", "ab " + "b" * 253, 4, "ab"))
+    for nm, prefix, fl, name in shapes:
+        n = len(prefix) + fl
+        lines = 1 if prefix else fl + 1
+        u = {"ares_buf_split.2": lines + 1, "ares_buf_split.0": fl + 2, "ares_buf_split.1": fl + 2,
+             "ares_lookup_hostaliases.0": lines + 1, "ares_array_destroy.0": lines + 1, "ares_array_insertdata_last.0": 9,
+             "ares_array_insert_last.1": 9, "ares_buf_ensure_space.0": 6, "fread.1": fl + 1, "harness.0": fl + 2, "strlen.0": max(n + 2, 8),
+             "ares_is_hostname.0": (n if prefix else fl) + 2}
+        J.append(dict(name="c15_hostaliases_%s" % nm, harness="hostaliases.c",
+                      defines=["-DFL=%d" % fl, "-DPREFIX=" + q(prefix), "-DNAME=" + q(name)] + (["-DNONL", "-DCHK=0"] if prefix else []),
+                      real=LIB + ["src/lib/ares_search.c"], support=SUP, unwind=n + 3, unwindset=us(u), leak=True, native=False,
+                      witnesses=["end", "alias found", "file read, no match"] + (["file error"] if not prefix else []),
+                      bound="ares_lookup_hostaliases(name '%s') on an aliases file = %s%d ARBITRARY bytes; $HOSTALIASES set or not, "
+                            "file present or not, ARES_FLAG_NOALIASES set or not" %
+                            (name if len(name) < 8 else name[0] + "*%d" % len(name), ("%d concrete bytes + " % len(prefix)) if prefix else "", fl)))
+    return J
+
+
 def jobs(tier, seed):
     J = []
     J += options_jobs(tier)
@@ -263,4 +316,9 @@ def jobs(tier, seed):
     J += sortlist_jobs(tier)
     J += pton_jobs(tier)
     J += resolvline_jobs(tier)
+    J += hostaliases_jobs(tier)
+    if tier == "quick":
+        for job in J:   # measured unloaded: every quick job <= 130 s; the machine is shared, leave head room
+            job.setdefault("timeout", 480)
+            job["mem_gb"] = min(job.get("mem_gb", 6), 6)   # shared machine: no quick job may need more than 6 GB
     return J
